@@ -111,14 +111,14 @@ func (c *compressionPool) Decompress(dst *bytes.Buffer, src *bytes.Buffer, readM
 func (c *compressionPool) Compress(dst *bytes.Buffer, src *bytes.Buffer) *Error {
 	compressor, err := c.getCompressor(dst)
 	if err != nil {
-		return errorf(CodeUnknown, "get compressor: %w", err)
+		return errorf(CodeUnknown, "get compressor: %w", withoutEOF(err))
 	}
 	if _, err := io.Copy(compressor, src); err != nil {
 		_ = c.putCompressor(compressor)
-		return errorf(CodeInternal, "compress: %w", err)
+		return errorf(CodeInternal, "compress: %w", withoutEOF(err))
 	}
 	if err := c.putCompressor(compressor); err != nil {
-		return errorf(CodeInternal, "recycle compressor: %w", err)
+		return errorf(CodeInternal, "recycle compressor: %w", withoutEOF(err))
 	}
 	return nil
 }
